@@ -178,6 +178,34 @@ def loop_cases(ctx):
             rp = dict(radius=R, center=center.tolist(), err=float(err))
             ctx.fail("loop-formula", f"closed-form loop vector potential differs from quadrature by {err:.2e}", rp)
             first = first or dict(key="loop-formula", what="loop", **rp)
+    # the same for the CurrentLoop SOURCE (tdgl.sources), on shells from 0.4 to 35 loop radii around the loop: "for all loop
+    # radii / positions" includes evaluation points far from a small loop
+    from tdgl.sources import CurrentLoop
+
+    for rep in range(2 if ctx.quick else 8):
+        R = float(rng.uniform(0.2, 1.5))
+        center = rng.uniform(-1, 1, size=3)
+        I = float(rng.uniform(0.5, 5.0))
+        src_p = CurrentLoop(current=I, radius=R, center=tuple(center), current_units="uA", field_units="mT", length_units="um")
+        N = 20000
+        th = (np.arange(N) + 0.5) * 2 * np.pi / N
+        src = np.stack([center[0] + R * np.cos(th), center[1] + R * np.sin(th), np.full(N, center[2])], axis=1) * 1e-6
+        dl = np.stack([-R * np.sin(th), R * np.cos(th), np.zeros(N)], axis=1) * (2 * np.pi / N) * 1e-6
+        for shell in (0.4, 3.0, 9.0, 12.0, 20.0, 35.0):
+            d_ = rng.normal(size=(5, 3))
+            d_[:, 2] = np.abs(d_[:, 2]) + 0.2
+            pts = center + shell * R * d_ / np.linalg.norm(d_, axis=1)[:, None]
+            got = np.asarray(src_p(pts[:, 0], pts[:, 1], pts[:, 2]), dtype=float) * 1e-3 * 1e-6  # mT um -> T m
+            ref = np.array([(MU0 * I * 1e-6 / (4 * np.pi)) * (dl / np.linalg.norm(p_ * 1e-6 - src, axis=1)[:, None]).sum(axis=0) for p_ in pts])
+            err = float(np.abs(got - ref).max() / (np.abs(ref).max() + 1e-300))
+            ctx.tol("CurrentLoop source vs quadrature (rel, per shell)", err, 1e-6)
+            ctx.case(("loop-source", R, shell), nontrivial=True)
+            ctx.count("loop_source_shells")
+            if err > 1e-6:
+                rp = dict(radius=R, center=center.tolist(), distance_in_radii=shell, err=err)
+                ctx.fail("loop-formula:source", f"CurrentLoop vector potential at {shell} loop radii differs from quadrature by {err:.2e}", rp)
+                first = first or dict(key="loop-formula:source", what="loop source", **rp)
+                break
     return first
 
 
